@@ -31,6 +31,8 @@ def pt_alphabet():
         for kind, e, tr in (("rank4", 2, False), ("rank4", 3, True), ("rank3", 2, True), ("rank3", 3, False)):
             for dt in (DT, None):
                 out.append(("hand", kind, e, tr, n, dt))
+    out.append(("hand", "rank4-readout-caps", 2, False, 3, DT))
+    out.append(("hand", "rank4-readout-caps", 3, True, 2, None))
     out.append(("pttempo", "diag", None, None, 4, DT))
     out.append(("pttempo", "nondiag", None, None, 3, DT))
     out.append(("pttempo", "nondiag-complex", None, None, 3, DT))
@@ -46,6 +48,11 @@ def build(spec):
         if kind == "rank4":
             ks = [[R.random_free_unitary(d * e, 30 + k)] for k in range(n)]
             return A.build_pt(d, e, sigma, ks, dt=dt, basis_v=v, name="hand made", description="rank-4 ancilla PT")
+        if kind == "rank4-readout-caps":
+            ks = [[R.random_free_unitary(d * e, 30 + k)] for k in range(n)]
+            ro = np.diag(np.arange(1, e + 1, dtype=float)).astype(complex) + 0.2 * (np.ones((e, e)) - np.eye(e))
+            return A.build_pt(d, e, sigma, ks, dt=dt, basis_v=v, name="read-out", description="caps read the ancilla out",
+                              cap_op=ro)
         us = [[R.random_free_unitary(e, 50 + 10 * k + t) for t in range(d)] for k in range(n)]
         return A.build_pt(d, e, sigma, None, dt=dt, rank3_us=us, basis_v=v, caps="computed", name="hand made 3")
     op = {"diag": 0.5 * M.SZ, "nondiag": 0.5 * M.SX, "nondiag-complex": 0.5 * M.SY + 0.2 * M.SX}[kind]
